@@ -24,7 +24,8 @@ RULE = ('A case is (data set, query, optional page): data = the C01 data sets (0
         'constants and parameters in conditions / comparisons / coalesce / conditional expressions / bool() / int+bool arithmetic, '
         '// and % with non-negative dividend and positive constant divisor, string concatenation, slices and length-guarded '
         'indexing with constant bounds -3..4, upper/lower/strip, strip/lstrip/rstrip(chars), str(int), startswith/endswith/in '
-        'with non-constant patterns, tuple comparisons, tuple IN subquery; also as (pk, string expression) projections), optionally '
+        'with non-constant patterns, tuple comparisons, tuple [NOT] IN subquery incl. subqueries selecting the nullable column with '
+        'colliding values; also as (pk, string expression) projections), optionally '
         'ordered by primary key (asc/desc) and cut by [a:b], [a:], [:b], .limit(), .page(). Each case runs on '
         'live SQLite, emulated PostgreSQL and emulated MySQL (+ Oracle / CockroachDB at text level). Non-trivial = pony accepted '
         'the query on SQLite and on at least one of PostgreSQL / MySQL, that dialect was judged, and its SQL text differs from the '
